@@ -1,13 +1,58 @@
-"""Running modes other than a plain exposure (filled in by the observation/calibration drivers)."""
+"""Running modes other than a plain exposure: every run of an observation (and every fitness
+evaluation of a calibration) is the same exposure machine.  Used by C01, C09 and C07."""
+
+from __future__ import annotations
+
+import json
+
+from harness.drivers import _obs as O
+
+EXCS = ["ValueError", "KeyError", "RuntimeError", "ZeroDivisionError", "ProbeError"]
 
 
 def check_modes_dispatch(ctx):
-    return
+    """C01 in observation mode: in every run the enabled models execute once, in order, the
+    disabled one never (run events carry what each probe received; a call of the disabled
+    model or a missing call makes the effective vector undecodable)."""
+    _, cases = O.family(ctx, note="observation family (C01: dispatch inside every run)")
+    cases = [c for c in cases if not c["fault"] and O.not_zip_case(c)][: ctx.pick(60, 400)]
+    jobs = [dict(ocfg=c, variant=k, scheduler="synchronous" if c["dask"] else None) for k, c in enumerate(cases)]
+    traces = O.record(jobs)
+    ctx.cov["replayed_cases"] += len(traces)
+    ctx.notes["observation_runs_checked"] = sum(1 for t in traces for e in t["events"] if e["e"] == "run")
+    O.validate(ctx, traces, "modes", "C01")
+    from harness.drivers import _calib
+    _calib.check_dispatch(ctx)
 
 
 def check_modes_failures(ctx):
-    return
+    """C09 in observation mode: a fault in any run, sequentially and under dask schedulers."""
+    _, cases = O.family(ctx, note="observation family (C09: a fault in every position of the space)")
+    cases = [c for c in cases if c["fault"] and O.not_zip_case(c)]
+    jobs = []
+    for k, c in enumerate(cases):
+        if c["dask"]:
+            sch, w = [("synchronous", None), ("threads", 2), ("threads", 8)][k % 3]
+        else:
+            sch, w = None, None
+        jobs.append(dict(ocfg=c, variant=k, scheduler=sch, workers=w, exc=EXCS[k % len(EXCS)]))
+    traces = O.record(jobs)
+    ctx.cov["replayed_cases"] += len(traces)
+    nfail = sum(1 for t in traces if t["events"][-1]["e"] == "failed")
+    ctx.notes["observation_faults_surfaced"] = nfail
+    ctx.sample({"ocfg": traces[0]["ocfg"], "events": traces[0]["events"][-2:]})
+    O.validate(ctx, traces, "modes", "C09")
+    from harness.drivers import _calib
+    _calib.check_failures(ctx)
+
+
+def check_parallel_extras(ctx):
+    from harness.drivers import _calib
+    _calib.check_parallel(ctx)
 
 
 def replay(ctx, payload):
-    raise NotImplementedError
+    if payload["case"].get("kind") == "observation":
+        return O.replay(ctx, payload)
+    from harness.drivers import _calib
+    return _calib.replay(ctx, payload)
